@@ -259,7 +259,7 @@ def tree_cases(ctx):
         for ybits in (0, 4):
             items = [(M.key_bits(k, n), ('11', [])) for k in sorted({0, 1, (1 << n) - 1})]
             tree_case(ctx, n, items, ybits, 0.0, (), f'prune-root:{n}', force=lambda t: t.__setitem__('pruned', True))
-    for t in range(ctx.n(500, 5000)):
+    for t in range(ctx.n(1500, 12000)):
         n = rng.choice([1, 2, 3, 4, 5, 8, 16, 32]) if rng.random() < 0.6 else M.rand_width(rng)
         items = rand_items(rng, n, len(base))
         ybits = rng.choice([0, 0, 1, 5, 32])
